@@ -88,3 +88,15 @@ package redisemu
 //@ requires [C08,C16] unlocked: lockMode(ctx.dsc)
 //@ requires !mutated && !bumped && !removedKey && !scanStarted
 //@ modifies *
+
+// C17: SCAN ... TYPE compares the type name without regard to case (redis does);
+// an unknown name selects nothing (flag 0, which fnScan turns into a filter no key passes)
+//@ func storeKeyTypeFlag
+//@ prop C17 C06
+//@ safetyprop none
+//@ pure
+//@ ensures [C17] string: strings.ToLower(keyType) == "string" ==> result == FLAG_KEY_TYPE_STRING
+//@ ensures [C17] hash: strings.ToLower(keyType) == "hash" ==> result == FLAG_KEY_TYPE_HASH_TABLE
+//@ ensures [C17] set: strings.ToLower(keyType) == "set" ==> result == FLAG_KEY_TYPE_SET
+//@ ensures [C17] list: strings.ToLower(keyType) == "list" ==> result == FLAG_KEY_TYPE_LIST
+//@ ensures [C17] unknown: strings.ToLower(keyType) != "string" && strings.ToLower(keyType) != "hash" && strings.ToLower(keyType) != "set" && strings.ToLower(keyType) != "list" ==> result == 0
